@@ -205,7 +205,7 @@ def gen_dissolution_config(rng, system='nialcr', tier='quick'):
     the 'phase has no precipitates' branches are entered with non-zero previous values)."""
     cfg = precip.default_cfg(system)
     cfg['iterator'] = str(rng.choice(['euler', 'rk4'], p=[0.7, 0.3]))
-    cfg['constraints'] = {'dtScale': 0.3}
+    cfg['constraints'] = {'dtScale': 0.3, 'maxDissolution': 0.05, 'checkRcrit': False}    # the critical-radius rule collapses the step where the driving force passes through zero
     if system == 'alzr':
         cfg['x0'] = [float(rng.uniform(3.5e-3, 6e-3))]
         T1, T2 = float(rng.uniform(720, 770)), float(rng.uniform(1150, 1300))
@@ -225,6 +225,8 @@ def gen_dissolution_config(rng, system='nialcr', tier='quick'):
         t_age = float(np.exp(rng.uniform(np.log(5e3), np.log(3e4))))
         t_ramp = float(rng.uniform(50, 500))
         t_hold = float(np.exp(rng.uniform(np.log(2e2), np.log(5e3))))
+    if system != 'alzr':      # coarse classes: the growth-limited step scales with the class width
+        cfg['pbm'] = {'cMin': 1e-10, 'cMax': 8e-9, 'bins': 36, 'minBins': 28, 'maxBins': 56, 'adaptive': True}
     h = 1.0 / 3600.0
     cfg['schedule'] = {'kind': 'array', 'hours': [0.0, t_age * h, (t_age + t_ramp) * h, (t_age + t_ramp + t_hold) * h],
                        'temps': [T1, T1, T2, T2]}
@@ -232,6 +234,6 @@ def gen_dissolution_config(rng, system='nialcr', tier='quick'):
         cfg['segments'] = [t_age, t_ramp + t_hold]
     else:
         cfg['segments'] = [t_age + t_ramp + t_hold]
-    cfg['max_steps'] = 3500 if tier == 'quick' else 8000
+    cfg['max_steps'] = 2200 if tier == 'quick' else 8000
     cfg['dissolution'] = True
     return cfg
